@@ -396,7 +396,8 @@ static std::string ErrKind(const std::string& m)
 		{ "Invalid right side argument for 'in'", "inrhs" }, { "Invalid type in for expression", "fortype" },
 		{ "iterator for", "fortype" }, { "on a value that is not an object", "setnull" }, { "to an object", "notobject" },
 		{ "bad lexical cast", "badcast" }, { "to an integer", "badcast" }, { "Too few arguments", "args" }, { "Invalid number of arguments", "args" },
-		{ "String index is out of range", "range" }, { "Expression cannot be assigned to", "noassign" } };
+		{ "String index is out of range", "range" }, { "Expression cannot be assigned to", "noassign" },
+		{ "Namespace is read-only", "frozen" }, { "to a floating point number", "tonumber" } };
 	for (auto& p : pats)
 		if (m.find(p.first) != std::string::npos)
 			return std::string("e:") + p.second;
@@ -555,7 +556,13 @@ struct Gen {
 		case TNum:
 			r = rng.below(100);
 			if (r < 40) { static const std::vector<std::string> ops = { "+", "-", "*", "/", "%" }; return N2("op", Expr(TNum, d - 1), Expr(TNum, d - 1), pick(ops)); }
-			if (r < 52) { static const std::vector<std::string> ops = { "&", "|", "^", "<<", ">>" }; return N2("op", Expr(TNum, d - 1), Expr(TNum, d - 1), pick(ops)); }
+			if (r < 52) {
+				static const std::vector<std::string> ops = { "&", "|", "^", "<<", ">>" };
+				std::string o = pick(ops);
+				/* shift counts outside 0..31 are undefined in C++: mostly stay inside, sometimes not */
+				if (o.size() == 2 && pm(850)) return N2("op", Expr(TNum, d - 1), Num(std::to_string(rng.below(32))), o);
+				return N2("op", Expr(TNum, d - 1), Expr(TNum, d - 1), o);
+			}
 			if (r < 58) return N1("neg", Expr(TNum, d - 1));
 			if (r < 61) return N1("pos", Expr(TNum, d - 1));
 			if (r < 64) return N1("~", Expr(TNum, d - 1));
@@ -819,7 +826,12 @@ static Node Deep(const std::string& kind, int n)
 		else if (kind == "dict") e = NL("dict", { N2("set", N0("v", "a"), e, "=") });
 		else if (kind == "lambda") { Node f = N0("fn"); f.k.push_back(e); e = NL("call", { N1("par", f) }); }
 	}
-	if (kind == "index") { /* base must be a dictionary so that every step yields Empty, not an error */ }
+	if (kind == "ifset") {
+		/* an assignment to a (global) variable nested in n conditionals: the reference path looks the name up in the imports */
+		Node st = N2("set", N0("v", "g0"), Num("1"), "=");
+		for (int i = 0; i < n; i++) { Node c = N0("if"); c.k.push_back(N0("b1")); c.k.push_back(NL("blk", { st })); st = c; }
+		return NL("blk", { N2("set", N1("dot", N0("globals"), "g0"), Num("0"), "="), st, N0("v", "g0") });
+	}
 	return NL("blk", { e });
 }
 
@@ -990,7 +1002,7 @@ int main(int argc, char **argv)
 	bool thorough = std::string(vh::argOr(argc, argv, "--tier", "quick")) == "thorough";
 	long nProg = thorough ? 120000 : 5000, nExpr = thorough ? 150000 : 7000, nChaos = thorough ? 50000 : 2000, nHostile = thorough ? 150000 : 6000;
 	std::vector<std::pair<std::string, int>> deep;
-	for (const char *k : { "paren", "bracket", "neg", "not", "right", "left", "index", "dict", "lambda", "recursion" }) {
+	for (const char *k : { "paren", "bracket", "neg", "not", "right", "left", "index", "dict", "lambda", "recursion", "ifset" }) {
 		for (int n : { 5, 70, 74, 75, 76, 99, 100, 148, 149, 150, 151, 295, 296, 297, 298, 299, 300, 301, 302, 310 }) deep.push_back({ k, n });
 		if (thorough) for (int n : { 1000, 2500, 5000 }) deep.push_back({ k, n });
 		else deep.push_back({ k, 700 });
